@@ -172,11 +172,23 @@ def check_queries(ctx, srcs, what: str, expect_index_error=None, pack_check=None
     # hypothesis of the totality theorem (simplify_total): evaluated on every generated query; where it holds neither
     # the model nor the implementation may fail with anything but the dedicated index error
     res_wf = ctx.driver.batch([("wfq", [a[1]]) for _, a in reqs])
-    for (src, _, got, _), r0, rw in zip(keep, res, res_wf):
-        if rw == ("ok", "true") or tuple(rw) == ("ok", "true"):
-            ctx.dist["wfq: hypothesis of simplify_total holds"] += 1
+    # conclusion of the normal-form theorem (simplify_normal_form, simplify_output_wf), evaluated on what the REAL
+    # simplifier returned: for a well-formed input the output must be well formed and a normal form
+    outs = [(i, k[3]) for i, k in enumerate(keep) if k[3] is not None]
+    res_nf = dict(zip([i for i, _ in outs], ctx.driver.batch([("nf", [o]) for _, o in outs])))
+    res_owf = dict(zip([i for i, _ in outs], ctx.driver.batch([("wfq", [o]) for _, o in outs])))
+    for i, ((src, _, got, out_enc), r0, rw) in enumerate(zip(keep, res, res_wf)):
+        if tuple(rw) == ("ok", "true"):
+            ctx.dist["wfq: hypothesis of simplify_total / simplify_normal_form holds"] += 1
             if r0[0] == "err" and r0[1] not in ("indexError", "FuncADLIndexError") and not r0[1].startswith("fuel"):
                 ctx.disagree("simplify_total", {"src": src}, "no internal error on a well-formed query (theorem)", (r0[0], r0[1][:200]))
+            if i in res_nf:
+                if tuple(res_nf[i]) != ("ok", "true"):
+                    ctx.violate({"src": src, "out": out_enc[:600]},
+                                "C14: the simplified query is not a normal form: a constant projection is left on a literal or on a First, or an operator call is left on a source it fuses with")
+                if tuple(res_owf[i]) != ("ok", "true"):
+                    ctx.violate({"src": src, "out": out_enc[:600]}, "C18: the simplified query is not well formed although the input is")
+                ctx.dist["output checked: normal form and well formed"] += 1
         else:
             ctx.dist["wfq: outside (operator name as a value, operator call of another shape)"] += 1
     res_ck = ctx.driver.batch([("simpCk", a) for _, a in reqs])
